@@ -9,7 +9,7 @@ git -C /repo worktree add --detach -q $wt HEAD || exit 2
 trap 'git -C /repo worktree remove --force $wt' EXIT
 dirs="$@"; [ -z "$dirs" ] && dirs=$(ls -d $here/seeded/*/ 2>/dev/null)
 for d in $dirs; do
-  d=${d%/}; name=$(basename $d)
+  d=$(realpath ${d%/}); name=$(basename $d)
   [ -f $d/patch.diff ] || continue
   prop=$(jq -r .property $d/meta.json)
   if ! git -C $wt apply $d/patch.diff 2>/dev/null; then echo "$name ($prop): PATCH DOES NOT APPLY"; continue; fi
